@@ -182,6 +182,7 @@ struct AllocState {
     size_t max_block = (size_t)64 << 20;   // larger requests fail with bad_alloc
     bool track = false;            // keep a registry of blocks (pool executors)
     bool inside = false;           // allocations made by the harness itself are not tracked
+    bool only_array = false;       // count (and fail) only new[] - the library's own blocks -, not the standard library's operator new
     static const int kMax = 8192;
     Block blocks[kMax]; int nblocks = 0; long next_id = 1;
     int bad_frees = 0;             // delete of a pointer that is not a live tracked block
